@@ -377,7 +377,8 @@ func genLiteral(r *common.Rng) string {
 		sb.WriteString(q + ch)
 		return sb.String()
 	}
-	ws := common.Pick(r, []string{"", "", "\t", "\t\t", "  ", " \t", "\t ", "    ", " ", " \t", "\v", "\f "})
+	ws := common.Pick(r, []string{"", "", "\t", "\t\t", "  ", " \t", "\t ", "    ", " ", " \t", "\v", "\f ",
+		" ", "\t ", "\u0085", "　 ", " ", "\xa0", "\xc2", "\t\xe2\x80", " \t", "​"})
 	open := common.Pick(r, []string{"\n", "\n", "\n", "\n", "\r\n", "", "x\n", " \n", "\r", "#\n"})
 	sb.WriteString(h + q + q + q + open)
 	nlines := r.Intn(5)
@@ -405,7 +406,7 @@ func genLiteral(r *common.Rng) string {
 	}
 	cws := ws
 	if r.Chance(1, 8) {
-		cws = common.Pick(r, []string{"", " ", "\t", ws + " ", "x"})
+		cws = common.Pick(r, []string{"", " ", "\t", ws + " ", "x", " ", ws + " ", "\x85", "\xe3\x80\x80", "\x80\x80\x80\x80\x80"})
 	}
 	ch := h
 	if r.Chance(1, 10) {
